@@ -384,4 +384,4 @@ pub fn run(rep: &Report) {
     rep.floor("programs cross-checked on the real binary", rep.counter("programs cross-checked on the real binary"), 100);
 }
 
-pub const RULE: &str = "structured programs built from identity-carrying instructions (mov reg,<unique id>): forward jumps (taken and not taken, with known flag state), counted loops, procedures calling procedures, explicit ret in the middle and implied ret at the closing brace, macro uses, prints, int 3, hlt at random places, labels before instructions / procedures / macro uses / prints / at the end of the file; block sequences up to the scope are enumerated exhaustively (3 label/procedure placements), self-recursion and procedures left by a jump up to 5000 stacked returns; programs of more than 65536 instructions place calls, returns, jumps and loops beyond instruction index 65535; larger programs are random with random layout (several items per line, blank lines, with/without final newline). Oracle: a reference interpreter over the AST; the sequence of instruction indices handed to Interpreter::parse by a replica of the driver loop must equal the reference trace, end the same way and leave the same registers, and the real binary's hook trace must equal the replica's. Distinct = (trace length, number of taken transfers, end kind).";
+pub const RULE: &str = "structured programs built from identity-carrying instructions (mov reg,<unique id>): forward jumps (taken and not taken, with known flag state), counted loops, procedures calling procedures, explicit ret in the middle and implied ret at the closing brace, macro uses, prints, int 3, hlt at random places, labels before instructions / procedures / macro uses / prints / at the end of the file; block sequences up to the scope are enumerated exhaustively (3 label/procedure placements), self-recursion and procedures left by a jump up to 5000 stacked returns; programs of more than 65536 instructions place calls, returns, jumps and loops beyond instruction index 65535; larger programs are random with random layout (several items per line, blank lines, with/without final newline). Oracle: a reference interpreter over the AST; the sequence of instruction indices handed to Interpreter::parse by a replica of the driver loop must equal the reference trace, end the same way and leave the same registers, and the real binary's hook trace must equal the replica's. Distinct = (trace length, number of taken transfers, end kind). Also: a label and a procedure sharing one name (every fourth random program, through the binary), recursion 32767..40000 deep, programs at other scales (hundreds / tens of thousands of lines in front, deep indentation); the replica loads the program's data like the driver.";
